@@ -2,7 +2,7 @@
    gen/LockProgram.v is regenerated from the C sources on every run (translate/locks.py); gen/LockKnown.v lists the
    functions named by open findings (their own paths are excluded: `exec known program` never enters them).
    With known = [] the statements below cover every path of every function of the analysed files. *)
-From Coq Require Import String List Permutation.
+From Coq Require Import String List Bool Permutation.
 From L60870 Require Import Locks.Skeleton Locks.Checker Locks.CheckerSound Locks.Deadlock gen.LockProgram gen.LockKnown.
 Import ListNotations.
 
@@ -47,8 +47,14 @@ Theorem C17_no_deadlock :
     ((exists t, In t (snd s) /\ unfinished t) -> exists s', step s s').
 Proof. exact (check_sound_order known program C17_current). Qed.
 
-(* non-vacuity: the program is not empty, locks are taken, and the ranking is not trivial *)
+(* non-vacuity: the program is not empty, locks are taken, the ranking is not trivial, and the real thread entry points
+   (listener, connection threads, CS101 worker threads) are balanced functions of the program, i.e. they satisfy the
+   contract hypotheses of C17_balance / C17_no_deadlock *)
 Example C17_example :
   length (funs program) > 100 /\ length (ranks program) >= 5 /\
-  existsb (fun d => match fpost d with Some _ => true | None => false end) (funs program) = true.
+  existsb (fun d => match fpost d with Some _ => true | None => false end) (funs program) = true /\
+  forallb (fun f => match find_fn program f with
+                    | Some d => andb (is_none (fpre d)) (is_none (fpost d))
+                    | None => false
+                    end) thread_roots = true.
 Proof. vm_compute. repeat split; repeat constructor. Qed.
